@@ -75,6 +75,20 @@ def send (cfg : Cfg) (f₁ f₂ : Nat) (attrs : List Attr) : Nat × List Attr :=
   let p := prepare cfg f₁ attrs
   (p.1, encode f₂ p.2)
 
+/-! ### the delivery-receipt helper (`receipts.Handler.SendMessage` / `SendMessageElement`) -/
+
+/-- `stanza.NewMessage`: the value of the LAST unqualified id attribute (no early exit), `0` if none -/
+def lastId : List Attr → Nat → Nat
+  | [], v => v
+  | a :: as, v => lastId as (if a.space = .none ∧ a.loc = .id then a.val else v)
+
+/-- the message is decoded into a struct, an empty id replaced by a generated one — the key of
+`Handler.sent` — and the start element REBUILT from the struct (type, to, id), then encoded -/
+def rcptSend (f₁ f₂ : Nat) (attrs : List Attr) : Nat × List Attr :=
+  let v := lastId attrs 0
+  let key := if v = 0 then f₁ else v
+  (key, encode f₂ [⟨.none, .type, 1⟩, ⟨.none, .other, 1⟩, ⟨.none, .id, key⟩])
+
 /-! ### the reply -/
 
 /-- spelling of the reply's `from` relative to the request's `to` -/
